@@ -160,8 +160,10 @@ pub fn run(ctx: &Ctx) -> i32 {
     }
     let n = ctx.scale(20000, 300000);
     let mut trees = check::draw(ctx.seed, 0xC15, n, 520);
-    for i in 0..trees.len() {
-        let r = eval(&trees[i].current());
+    let dnas: Vec<Vec<u16>> = trees.iter().map(|t| t.current()).collect();
+    use rayon::prelude::*;
+    let results: Vec<Res> = dnas.par_iter().map(|d| eval(d)).collect();
+    for (i, r) in results.into_iter().enumerate() {
         rep.evaluations += 1;
         if !r.evaluated {
             rep.count("not_both_accepted(skipped)", 1);
